@@ -39,11 +39,13 @@ def true_occurrences(hay, needle, start):
     return out
 
 
-def judge_needle(hay, needle, bs, start, limit, utils):
-    """Returns None or (monitor, message)."""
+def judge_needle(hay, needle, bs, start, limit, utils, pos=0):
+    """Returns None or (monitor, message).  pos: file position before the call (matters when start is None:
+    'search from the current position')."""
     core.set_buffer_size(bs)
     fh = io.BytesIO(hay)
-    s = 0 if start is None else start
+    fh.seek(pos)
+    s = pos if start is None else start
     try:
         got = list(utils.iter_find_needle(fh, needle, start_offset=start, max_offset=limit))
     except Exception as e:  # noqa: BLE001
@@ -73,11 +75,11 @@ def check_case(case, ctx):
         if op == "needle":
             hay, needle = case["hay"], case["needle"]
             ctx.mon("needle.limit" if case["limit"] else "needle.model")
-            r = judge_needle(hay, needle, case["bs"], case["start"], case["limit"], utils)
+            r = judge_needle(hay, needle, case["bs"], case["start"], case["limit"], utils, case.get("pos", 0))
             if r:
-                ctx.violation(r[0], f"hay={core.short(hay, 80)} needle={needle.hex()} bs={case['bs']} start={case['start']}: {r[1]}", case)
+                ctx.violation(r[0], f"hay={core.short(hay, 80)} needle={needle.hex()} bs={case['bs']} start={case['start']} pos={case.get('pos', 0)}: {r[1]}", case)
                 return
-            s = case["start"] or 0
+            s = case.get("pos", 0) if case["start"] is None else case["start"]
             nt = hay.find(needle, s) != -1
             ctx.ok(fp=("n", hay, needle, case["bs"], case["start"], case["limit"]), nontrivial=nt, case=case,
                    classes=("needle:limit" if case["limit"] else "needle:nolimit", f"needle:bs={case['bs'] if case['bs'] and case['bs'] < 10 else 'big'}",
@@ -108,14 +110,16 @@ def _needle_block(case, ctx, utils):
                         if limit and start:  # keep the product small: limits are combined with start None/0
                             continue
                         ctx.monitors["needle.limit" if limit else "needle.model"] += 1
-                        r = judge_needle(hay, needle, bs, start, limit, utils)
+                        # "from the current position": the file is positioned somewhere inside when no start is given
+                        pos = (len(needle) + bs) % (L + 1) if start is None and not limit else 0
+                        r = judge_needle(hay, needle, bs, start, limit, utils, pos)
                         if r:
-                            c = {"op": "needle", "hay": hay, "needle": needle, "bs": bs, "start": start, "limit": limit}
+                            c = {"op": "needle", "hay": hay, "needle": needle, "bs": bs, "start": start, "limit": limit, "pos": pos}
                             ctx.violation(r[0], f"hay={hay.hex()} needle={needle.hex()} bs={bs} start={start}: {r[1]}", c)
                             if ctx.nviol > 200:
                                 return
                         n += 1
-                        nt += hay.find(needle, start or 0) != -1
+                        nt += hay.find(needle, pos if start is None else start) != -1
     ctx.bulk(n, nt)
 
 
@@ -238,7 +242,8 @@ def run_shard(shard, ctx):
             hay = bytes(hay)
             start = rng.choice([None, 0, None, rng.randrange(0, hl + 2), rng.randrange(0, hl + 2)])
             limit = rng.choice([0, 0, 0, rng.randrange(1, hl + 10), 1024])
-            check_case({"op": "needle", "hay": hay, "needle": needle, "bs": bs, "start": start, "limit": limit}, ctx)
+            check_case({"op": "needle", "hay": hay, "needle": needle, "bs": bs, "start": start, "limit": limit,
+                        "pos": rng.randrange(0, hl + 1) if start is None and not limit and rng.random() < 0.6 else 0}, ctx)
     elif kind == "artifact":
         for i in range(shard["n"]):
             if ctx.out_of_time():
